@@ -21,7 +21,19 @@ def run(seed, n_graphs):
         for k in range(n_graphs):
             rng = Rng(seed, "numjac|%d" % k)
             g, desc = G.make_graph(rng, noise=rng.choice([0.0, 0.1]), custom=True)
+            aliased = False
+            if rng.random() < 0.3:
+                # two vertices that hold the *same* pose object (legal: Vertex stores the caller's object and the library
+                # never writes into a pose): differentiation must still perturb one vertex only
+                cands = [e for e in g._edges if type(e).__name__ == "EdgeOdometry"]
+                if cands:
+                    e0 = rng.choice(cands)
+                    e0.vertices[1].pose = e0.vertices[0].pose
+                    aliased = True
+                    res["aliased_graphs"] = res.get("aliased_graphs", 0) + 1
             for ei, e in enumerate(g._edges):
+                if aliased and type(e).__name__.startswith("Distance"):
+                    continue  # zero distance between aliased vertices: the custom error itself is singular there
                 snap0 = [np.array(v.pose).tobytes() for v in e.vertices]
                 types0 = [type(v.pose) for v in e.vertices]
                 ids0 = [id(v) for v in e.vertices]
